@@ -25,6 +25,49 @@ def check(ctx):
   c12.r5(ctx, backpressure=False)    # the back-pressure clause concerns transmission after TimeoutError (C12), not tag reuse
 
 
+def mark_eval(ev, upto=None):
+  """Symbolic run of a TagPool.get path over N = entry value of self._next: values are (a, b) = a*N + b.
+  -> (env of locals, final value of self._next, list of every value written to self._next)"""
+  env = {}
+  mark = (1, 0)
+  writes = []
+
+  def val(e):
+    if isinstance(e, ast.Constant) and isinstance(e.value, int) and not isinstance(e.value, bool):
+      return (0, e.value)
+    if isinstance(e, ast.Name):
+      return env.get(e.id)
+    if isinstance(e, ast.Attribute) and U(e) == 'self._next':
+      return mark
+    if isinstance(e, ast.BinOp) and isinstance(e.op, (ast.Add, ast.Sub)):
+      l, r = val(e.left), val(e.right)
+      if l is None or r is None:
+        return None
+      s = 1 if isinstance(e.op, ast.Add) else -1
+      return (l[0] + s * r[0], l[1] + s * r[1])
+    return None
+  for e in (ev if upto is None else ev[:upto]):
+    if e.kind != 'stmt':
+      continue
+    st = e.node
+    if isinstance(st, ast.Assign) and len(st.targets) == 1:
+      t = st.targets[0]
+      v = val(st.value)
+      if isinstance(t, ast.Name):
+        env[t.id] = v
+      elif U(t) == 'self._next':
+        mark = v
+        writes.append(v)
+    elif isinstance(st, ast.AugAssign) and isinstance(st.op, (ast.Add, ast.Sub)):
+      v = val(ast.BinOp(left=st.target if not isinstance(st.target, ast.Name) else ast.Name(id=st.target.id, ctx=ast.Load()), op=st.op, right=st.value))
+      if isinstance(st.target, ast.Name):
+        env[st.target.id] = v
+      elif U(st.target) == 'self._next':
+        mark = v
+        writes.append(v)
+  return env, mark, writes, val
+
+
 def r1(ctx):
   prog = ctx.prog
   tp = prog.cls(MUX, 'TagPool')
@@ -57,16 +100,9 @@ def r1(ctx):
       continue
     r = [e for e in ev if e.kind == 'ret'][-1].node
     if ('notself._set', True) in fs or ('self._set', False) in fs:
-      incs = [i for i, e in enumerate(ev) if e.kind == 'stmt' and isinstance(e.node, ast.AugAssign) and U(e.node.target) == 'self._next']
-      ok = len(incs) == 1 and isinstance(ev[incs[0]].node.op, ast.Add) and U(ev[incs[0]].node.value) == '1'
-      # returned value is self._next read after the increment
-      rv = U(r.value)
-      src = rv
-      for i, e in enumerate(ev):
-        if e.kind == 'stmt' and isinstance(e.node, ast.Assign) and U(e.node.targets[0]) == rv:
-          src = U(e.node.value)
-          ok = ok and incs and i > incs[0]
-      ok = ok and src == 'self._next'
+      # symbolic run over N = self._next at entry: the mark advances by exactly one and the new mark is what is handed out
+      env_, mark_, writes_, val_ = mark_eval(ev)
+      ok = mark_ == (1, 1) and writes_ == [(1, 1)] and val_(r.value) == (1, 1)
       # guard: raise when _next (==|>=) max_tag + c
       guard = [(c, t) for c, t in RAW(ev) if c.startswith('self._next') and 'self._max_tag' in c]
       c_off = None
@@ -109,7 +145,7 @@ def r1(ctx):
       for t in tg:
         u = U(t)
         if u.endswith('._next') and '_tag_pool' in u or (f.cls is not None and f.cls.name == 'TagPool' and u == 'self._next'):
-          legit = (f.name == '__init__' and isinstance(st, ast.Assign)) or (f.qualname == 'TagPool.get' and isinstance(st, ast.AugAssign) and isinstance(st.op, ast.Add) and U(st.value) == '1')
+          legit = (f.name == '__init__' and isinstance(st, ast.Assign)) or (f.qualname == 'TagPool.get')     # the amount written in get is decided on its paths (fresh tag rule)
           if not legit:
             bad.append('%s: %s' % (f.qualname, U(st)))
         if (f.cls is not None and f.cls.name == 'TagPool' and u == 'self._set' and f.name != '__init__') or u.endswith('_tag_pool._set'):
